@@ -166,9 +166,10 @@ class Build:
         self.lock()
         try:
             os.makedirs(BUILD_ROOT, exist_ok=True)
-            for d in os.listdir(BUILD_ROOT):
-                if d.startswith(".") or d == self.key:
-                    continue
+            others = [d for d in os.listdir(BUILD_ROOT) if not d.startswith(".") and d != self.key]
+            others.sort(key=lambda d: os.path.getmtime(os.path.join(BUILD_ROOT, d)), reverse=True)
+            keep = int(os.environ.get("VERIF_KEEP_BUILDS", "1"))      # besides the current one
+            for d in others[keep:]:
                 # only evict builds nobody is using (users hold a shared lock on 'inuse')
                 p = os.path.join(BUILD_ROOT, d)
                 try:
